@@ -96,6 +96,9 @@ Definition not_close (x : wire) : bool := match x with WClosed => false | _ => t
 Definition outgoing (already_closed : bool) (l : list cobs) : list wire :=
   if already_closed then filter not_close (sent_of l) else sent_of l.
 
+(* a transport error means the peer closed first: nothing travels back *)
+Definition is_connerr (e : cev) : bool := match e with CConnErr => true | _ => false end.
+
 (* one endpoint processes one control event; the environment's answers come from the
    configuration and the hub's trusted flag *)
 Definition estep (cfg : pcfg) (trusted : bool) (c : pcs) (e : cev) : pcs * list cobs :=
@@ -111,7 +114,7 @@ Definition client_ev (cfg : pcfg) (p : pair) (e : cev) : pair :=
                  (sat2 (n_csetup k + count_of is_setup l)) (n_ssetup k)
                  (c_complete k || has is_complete_report l) (s_complete k)
                  (c_idrep k || has is_shipid l) (s_idrep k) (s_peer_ready k))
-         (q_cs p ++ outgoing (p_wclosed (e_c k)) l) (q_sc p).
+         (q_cs p ++ outgoing (p_wclosed (e_c k) || is_connerr e) l) (q_sc p).
 
 (* the server processes e; trusted / done are the hub's trusted flag and the user-acted flag
    as they are when the event is handled *)
@@ -124,7 +127,7 @@ Definition server_ev (cfg : pcfg) (p : pair) (trusted done : bool) (e : cev) : p
                  (c_idrep k) (s_idrep k || has is_shipid l)
                  (s_peer_ready k || (N.eqb (p_st (e_s k)) 11 &&
                     match e with CRecv NotDatagram NoClose (MHello (Hello HReady _ _)) => true | _ => false end)))
-         (q_cs p) (q_sc p ++ outgoing (p_wclosed (e_s k)) l).
+         (q_cs p) (q_sc p ++ outgoing (p_wclosed (e_s k) || is_connerr e) l).
 
 (* strict = the user only approves once the server has seen the client's hello "ready"
    (or before the server started waiting): see the finding recorded for C03 *)
@@ -249,3 +252,12 @@ Definition psum_eqb (a b : psum) : bool :=
   && Bool.eqb (o_compc a) (o_compc b) && Bool.eqb (o_comps a) (o_comps b)
   && Bool.eqb (o_idrepc a) (o_idrepc b) && Bool.eqb (o_idreps a) (o_idreps b)
   && list_eqb N.eqb (o_qcs a) (o_qcs b) && list_eqb N.eqb (o_qsc a) (o_qsc b).
+
+(* outcomes, read off the observable summary *)
+Definition sum_both_complete_open (o : psum) : bool :=
+  N.eqb (o_stc o) 38 && N.eqb (o_sts o) 38 && negb (o_closedc o) && negb (o_closeds o)
+  && N.eqb (o_nsetc o) 1 && N.eqb (o_nsets o) 1
+  && match o_qcs o, o_qsc o with [], [] => true | _, _ => false end.
+Definition sum_both_ended (o : psum) : bool :=
+  o_closedc o && o_closeds o && terminal_state (o_stc o) && terminal_state (o_sts o)
+  && negb (o_armedc o) && negb (o_armeds o).
